@@ -11,6 +11,7 @@
 #include <stdio.h>
 #include <stdlib.h>
 #include <string.h>
+#include <sched.h>
 #include <sys/mman.h>
 #include <sys/syscall.h>
 #include <sys/wait.h>
@@ -27,7 +28,7 @@ extern void __tsan_acquire(void* addr) __attribute__((weak));
 extern void __tsan_release(void* addr) __attribute__((weak));
 
 /* sanitizer defaults (harmless when the runtime is absent); the environment may still override */
-const char* __tsan_default_options(void) { return "halt_on_error=0:exitcode=66:report_signal_unsafe=0:atexit_sleep_ms=0:history_size=2"; }
+const char* __tsan_default_options(void) { return "halt_on_error=0:exitcode=66:report_signal_unsafe=0:report_thread_leaks=0:atexit_sleep_ms=0:history_size=2"; }
 const char* __asan_default_options(void) { return "detect_leaks=0:exitcode=67:abort_on_error=0:allocator_may_return_null=1"; }
 const char* __ubsan_default_options(void) { return "halt_on_error=1:exitcode=68:print_stacktrace=1"; }
 
@@ -63,7 +64,7 @@ static result_t* R;
 static const uint8_t* g_prefix;
 static const uint32_t* g_prefix_sig;
 static int g_prefix_len;
-static int opt_spurious = 0, opt_horizon = 5000, opt_verbose = 0;
+static int opt_spurious = 0, opt_horizon = 5000, opt_verbose = 0, opt_envpor = 1, opt_cpu = -1;
 
 /* ------------------------------------------------------------------ tiny formatter (no libc on shared data) */
 static size_t fmt_u(char* d, size_t cap, size_t n, unsigned long long v, unsigned base, int neg) {
@@ -210,6 +211,29 @@ static int thread_enabled(int t) {
     }
 }
 
+/* Partial-order reduction for environment DEVIATIONS (opt_envpor): timeout(t)/spurious(t) only changes t from "asleep" to
+ * "wants its mutex back".  Nothing can tell the difference before that mutex is free (then t is runnable and competes for
+ * it), and between two events on that mutex (lock, unlock, release by a condition wait - an "epoch") all scheduling points
+ * are equivalent for it: the deviation commutes with every transition in between, and a woken t that is not chosen costs
+ * nothing.  So a deviation for t is offered once per epoch of its mutex, at the first scheduling point of the epoch at which
+ * the mutex is free (and again at that same point after another deviation was taken there).  Firing it anywhere else is
+ * equivalent to firing it at such a point, with the same preemption/deviation costs; in particular "the timeout fires
+ * before the notifier's signal" is reached by firing it in the epoch that precedes the notifier's critical section.
+ * Forced timeouts (no thread runnable) are not deviations and are unaffected.  --envpor 0 switches the reduction off. */
+static int mx_epoch[MAX_OBJ];
+static int env_off_epoch[MC_MAX_THREADS], env_off_point[MC_MAX_THREADS];
+static int thread_point;     /* number of thread transitions executed so far */
+
+static int env_relevant(int t) {
+    if (!opt_envpor) return 1;
+    int m = th[t].mi;
+    if (mx[m].owner >= 0) return 0;
+    if (env_off_epoch[t] == mx_epoch[m] && env_off_point[t] != thread_point) return 0;
+    env_off_epoch[t] = mx_epoch[m];
+    env_off_point[t] = thread_point;
+    return 1;
+}
+
 static int build_enabled(trans_t* en) {
     int n = 0, nthreads, ntime = 0;
     int cur_en = thread_enabled(cur);
@@ -218,13 +242,13 @@ static int build_enabled(trans_t* en) {
         if (t != cur && thread_enabled(t)) { en[n].kind = K_THREAD; en[n].t = (uint8_t)t; en[n].cost = cur_en ? COST_PREEMPT : 0; n++; }
     nthreads = n;
     for (int t = 0; t < nth; t++)
-        if (th[t].used && th[t].op == OP_CBLOCKED && th[t].timed && n < MAX_ALT) {
+        if (th[t].used && th[t].op == OP_CBLOCKED && th[t].timed && n < MAX_ALT && (nthreads == 0 || env_relevant(t))) {
             en[n].kind = K_TIMEOUT; en[n].t = (uint8_t)t; en[n].cost = nthreads ? COST_DEV : 0; n++; ntime++;
         }
     if (opt_spurious) {
         int first = n;
         for (int t = 0; t < nth; t++)
-            if (th[t].used && th[t].op == OP_CBLOCKED && n < MAX_ALT - 1) { en[n].kind = K_SPURIOUS; en[n].t = (uint8_t)t; en[n].cost = COST_DEV; n++; }
+            if (th[t].used && th[t].op == OP_CBLOCKED && n < MAX_ALT - 1 && env_relevant(t)) { en[n].kind = K_SPURIOUS; en[n].t = (uint8_t)t; en[n].cost = COST_DEV; n++; }
         if (nthreads == 0 && ntime == 0 && n > first) {   /* nothing can run: STOP is the default, spurious wake-ups are alternatives */
             memmove(en + 1, en, (size_t)n * sizeof(trans_t));
             en[0].kind = K_STOP; en[0].t = 0; en[0].cost = 0; n++;
@@ -336,6 +360,7 @@ static void schedule(int self) {
         case K_SPURIOUS: th[tr.t].op = OP_REACQ; th[tr.t].rc = 0; sync_ev("E SP%d", tr.t); continue;
         default: break;
         }
+        thread_point++;
         if (tr.t == self) { cur = self; return; }
         cur = tr.t;
         wake(tr.t);
@@ -390,7 +415,7 @@ int mc_mutex_lock(pthread_mutex_t* m) {
     th[self].mi = i;
     schedule(self);
     if (mx[i].owner >= 0) machinery("T%d scheduled to lock m%d owned by T%d", self, i, mx[i].owner);
-    mx[i].owner = self;
+    mx[i].owner = self; mx_epoch[i]++;
     th[self].op = OP_NONE;
     sync_ev("T%d L%d", self, i);
     if (__tsan_acquire) __tsan_acquire(m);
@@ -405,7 +430,7 @@ int mc_mutex_unlock(pthread_mutex_t* m) {
     th[self].op = OP_NONE;
     if (mx[i].owner != self) model_fail("T%d unlocks mutex m%d which it does not own (owner %d)", self, i, mx[i].owner);
     if (__tsan_release) __tsan_release(m);
-    mx[i].owner = -1;
+    mx[i].owner = -1; mx_epoch[i]++;
     sync_ev("T%d U%d", self, i);
     return 0;
 }
@@ -433,12 +458,13 @@ static int cond_wait_common(pthread_cond_t* c, pthread_mutex_t* m, int timed) {
     schedule(self);
     if (mx[mi].owner != self) model_fail("T%d waits on c%d without owning m%d", self, ci, mi);
     if (__tsan_release) __tsan_release(m);
-    mx[mi].owner = -1;
+    mx[mi].owner = -1; mx_epoch[mi]++;
+    env_off_epoch[self] = -1;
     th[self].op = OP_CBLOCKED; th[self].rc = 0;
     sync_ev("T%d C%d", self, ci);
     schedule(self);
     if (th[self].op != OP_REACQ || mx[mi].owner >= 0) machinery("T%d resumed from cond wait in state %d", self, th[self].op);
-    mx[mi].owner = self;
+    mx[mi].owner = self; mx_epoch[mi]++;
     th[self].op = OP_NONE;
     sync_ev("T%d A%d", self, mi);
     if (__tsan_acquire) __tsan_acquire(m);
@@ -568,7 +594,8 @@ static void run_execution(result_t* res, const uint8_t* prefix, const uint32_t* 
     g_prefix = prefix; g_prefix_sig = sigs; g_prefix_len = plen;
     memset(th, 0, sizeof th);
     th[0].used = 1; th[0].op = OP_NONE; th[0].real = pthread_self(); th[0].mi = th[0].ci = -1;
-    nth = 1; cur = 0; self_id = 0; nmx = ncv = 0; in_end = 0; active = 1; sync_log = 0;
+    nth = 1; cur = 0; self_id = 0; nmx = ncv = 0; in_end = 0; active = 1; sync_log = 0; thread_point = 0;
+    memset(mx_epoch, 0, sizeof mx_epoch); memset(env_off_epoch, 0xff, sizeof env_off_epoch);
     mc_harness_main(h_argc, h_argv);
     th[0].op = OP_FINISHED;
     schedule(0);
@@ -593,7 +620,7 @@ static item_t* item_new(const step_t* steps, int len, int last_choice, int pc, i
     return it;
 }
 
-typedef struct { pid_t pid; item_t* it; result_t* res; int errfd; } slot_t;
+typedef struct { pid_t pid; item_t* it; result_t* res; int errfd; int index; } slot_t;
 
 typedef struct outcome {
     struct outcome* next;
@@ -648,6 +675,12 @@ static void launch(slot_t* s, item_t* it, int verbose) {
     pid_t p = fork();
     if (p < 0) { perror("fork"); exit(2); }
     if (p == 0) {
+        if (opt_cpu >= 0) {
+            cpu_set_t cs; CPU_ZERO(&cs);
+            long nc = sysconf(_SC_NPROCESSORS_ONLN);
+            CPU_SET((unsigned)((opt_cpu + s->index) % (nc > 0 ? nc : 1)), &cs);
+            sched_setaffinity(0, sizeof cs, &cs);      /* all threads of one execution on one CPU: hand-offs become cheap */
+        }
         alarm((unsigned)opt_timeout);
         dup2(s->errfd, 2); dup2(s->errfd, 1);
         opt_verbose = verbose;
@@ -829,7 +862,7 @@ static int do_explore(int P, int D, int jobs, double deadline_s, long maxexec) {
     if (jobs < 1) jobs = 1;
     if (jobs > 64) jobs = 64;
     slot_t slots[64];
-    for (int j = 0; j < jobs; j++) slots[j] = make_slot();
+    for (int j = 0; j < jobs; j++) { slots[j] = make_slot(); slots[j].index = j; }
 
     /* determinism self-check: the first schedule twice */
     {
@@ -948,6 +981,8 @@ int mc_main(int argc, char** argv) {
         else if (!strcmp(argv[i], "--timeout")) opt_timeout = atoi(argv[++i]);
         else if (!strcmp(argv[i], "--sched")) sched = argv[++i];
         else if (!strcmp(argv[i], "--verbose")) verbose = atoi(argv[++i]);
+        else if (!strcmp(argv[i], "--envpor")) opt_envpor = atoi(argv[++i]);
+        else if (!strcmp(argv[i], "--cpu")) opt_cpu = atoi(argv[++i]);
         else { fprintf(stderr, "mc: unknown option %s\n", argv[i]); return 2; }
     }
     h_argc = argc - i; h_argv = argv + i;
